@@ -9,14 +9,15 @@ Local Open Scope string_scope.
 Local Open Scope list_scope.
 
 (* ---- children along a path, reachability through a table's paths ------------------------------- *)
-Inductive child_at : tree -> path -> tree -> Prop :=
-| ca_one t f c : lookup (tkids t) f = Some (One (Some c)) -> child_at t [f] c
-| ca_many t f l c : lookup (tkids t) f = Some (Many l) -> In c l -> child_at t [f] c
-| ca_nest t f m g rest c : lookup (tkids t) f = Some (One (Some m)) -> child_at m (g :: rest) c -> child_at t (f :: g :: rest) c.
+(* child_at lst t p c: c is the node (lst = false) or an element of the list (lst = true) at path p *)
+Inductive child_at : bool -> tree -> path -> tree -> Prop :=
+| ca_one t f c : lookup (tkids t) f = Some (One (Some c)) -> child_at false t [f] c
+| ca_many t f l c : lookup (tkids t) f = Some (Many l) -> In c l -> child_at true t [f] c
+| ca_nest b t f m g rest c : lookup (tkids t) f = Some (One (Some m)) -> child_at b m (g :: rest) c -> child_at b t (f :: g :: rest) c.
 
-Inductive reach (paths : string -> list path) : tree -> tree -> Prop :=
+Inductive reach (paths : string -> list (path * bool)) : tree -> tree -> Prop :=
 | r_refl t : reach paths t t
-| r_step t p c t' : In p (paths (tkind t)) -> child_at t p c -> reach paths c t' -> reach paths t t'.
+| r_step t p b c t' : In (p, b) (paths (tkind t)) -> child_at b t p c -> reach paths c t' -> reach paths t t'.
 
 (* any descendant *)
 Inductive desc : tree -> tree -> Prop :=
@@ -24,7 +25,7 @@ Inductive desc : tree -> tree -> Prop :=
 | d_one t f c t' : lookup (tkids t) f = Some (One (Some c)) -> desc c t' -> desc t t'
 | d_many t f l c t' : lookup (tkids t) f = Some (Many l) -> In c l -> desc c t' -> desc t t'.
 
-Lemma child_at_desc t p c : child_at t p c -> desc t c.
+Lemma child_at_desc b t p c : child_at b t p c -> desc t c.
 Proof.
   induction 1.
   - eapply d_one; [eassumption|apply d_refl].
@@ -35,15 +36,16 @@ Qed.
 Lemma desc_trans a b c : desc a b -> desc b c -> desc a c.
 Proof. induction 1; intros H'; [exact H'|eapply d_one; eauto|eapply d_many; eauto]. Qed.
 
-Lemma reach_mono (p1 p2 : string -> list path) :
+Lemma reach_mono (p1 p2 : string -> list (path * bool)) :
   (forall k p, In p (p1 k) -> In p (p2 k)) -> forall t t', reach p1 t t' -> reach p2 t t'.
 Proof. intros Hsub t t' H. induction H; [apply r_refl|eapply r_step; eauto]. Qed.
 
 (* ---- the paths and points of a fragment case ---------------------------------------------------- *)
-Fixpoint gstmt_paths (s : gstmt) : list path :=
+Fixpoint gstmt_paths (s : gstmt) : list (path * bool) :=
   match s with
-  | GNode p _ | GList p => [p]
-  | GIf _ body => (fix go (l : list gstmt) : list path := match l with [] => [] | x :: r => gstmt_paths x ++ go r end) body
+  | GNode p _ => [(p, false)]
+  | GList p => [(p, true)]
+  | GIf _ body => (fix go (l : list gstmt) : list (path * bool) := match l with [] => [] | x :: r => gstmt_paths x ++ go r end) body
   | _ => []
   end.
 
@@ -54,7 +56,7 @@ Fixpoint gstmt_points (s : gstmt) : list string :=
   | _ => []
   end.
 
-Definition frag_paths (tbl : list (string * list gstmt)) (k : string) : list path :=
+Definition frag_paths (tbl : list (string * list gstmt)) (k : string) : list (path * bool) :=
   match lookup tbl k with Some l => flat_map gstmt_paths l | None => [] end.
 Definition frag_points (tbl : list (string * list gstmt)) (k : string) : list string :=
   match lookup tbl k with Some l => flat_map gstmt_points l | None => [] end.
@@ -84,7 +86,7 @@ Proof. rewrite fbuild_unfold. reflexivity. Qed.
 
 (* a child closure selected by a path is the closure of a child of the tree along that path *)
 Lemma fsub_child tbl : forall p t c,
-  fsub (ft_kids (fbuild tbl t)) p = Some (One (Some c)) -> exists c0, child_at t p c0 /\ c = fbuild tbl c0.
+  fsub (ft_kids (fbuild tbl t)) p = Some (One (Some c)) -> exists c0, child_at false t p c0 /\ c = fbuild tbl c0.
 Proof.
   induction p as [|f rest IH]; intros t c H; [discriminate|].
   rewrite ft_kids_fbuild in H. destruct rest as [|g rest].
@@ -96,7 +98,7 @@ Qed.
 
 Lemma fsub_children tbl : forall p t l,
   fsub (ft_kids (fbuild tbl t)) p = Some (Many l) ->
-  forall c, In c l -> exists c0, child_at t p c0 /\ c = fbuild tbl c0.
+  forall c, In c l -> exists c0, child_at true t p c0 /\ c = fbuild tbl c0.
 Proof.
   induction p as [|f rest IH]; intros t l H c Hc; [discriminate|].
   rewrite ft_kids_fbuild in H. destruct rest as [|g rest].
@@ -112,8 +114,8 @@ Definition is_pdec (x : pitem) : Prop := exists nid k n, snd x = PDec nid k n.
 (* where a decoration fragment of the output of one statement comes from *)
 Inductive emitted (tbl : list (string * list gstmt)) (t : tree) : gstmt -> pitem -> Prop :=
 | em_dec name pos : emitted tbl t (GDec [] name) (pos, PDec (tid t) (tkind t) name)
-| em_node p chk c cur x : child_at t p c -> In x (f_out (ft_fn (fbuild tbl c) cur)) -> emitted tbl t (GNode p chk) x
-| em_list p c cur x : child_at t p c -> In x (f_out (ft_fn (fbuild tbl c) cur)) -> emitted tbl t (GList p) x
+| em_node p chk c cur x : child_at false t p c -> In x (f_out (ft_fn (fbuild tbl c) cur)) -> emitted tbl t (GNode p chk) x
+| em_list p c cur x : child_at true t p c -> In x (f_out (ft_fn (fbuild tbl c) cur)) -> emitted tbl t (GList p) x
 | em_if cnd body s x : In s body -> emitted tbl t s x -> emitted tbl t (GIf cnd body) x.
 
 Lemma femit_out r pos f cur x : In x (f_out (femit r pos f cur)) -> In x (f_out r) \/ x = (pos, f).
@@ -144,14 +146,12 @@ Proof.
     destruct Hp as [? [? [? Hp]]]; discriminate.
   - destruct (fval t fk from) as [[]|]; try (left; exact H). destruct (fval t fk ["To"]) as [[]|]; try (left; exact H).
     destruct (femit_out _ _ _ _ _ H) as [H1| ->]; [left; exact H1|]. destruct Hp as [? [? [? Hp]]]; discriminate.
-  - destruct (fsub fk p) as [[[c|]|l]|] eqn:E; try (destruct chk; left; exact H).
+  - destruct (fsub fk p) as [[[c|]|l]|] eqn:E; try (destruct chk; left; exact H); try (left; exact H).
     destruct (fthen_out _ _ _ H) as [H1|H1]; [left; exact H1|]. right.
     destruct (fsub_child tbl p t c E) as [c0 [A ->]]. eapply em_node; eauto.
   - destruct (fsub fk p) as [[[c|]|l]|] eqn:E; try (left; exact H).
-    + destruct (fthen_out _ _ _ H) as [H1|H1]; [left; exact H1|]. right.
-      destruct (fsub_child tbl p t c E) as [c0 [A ->]]. eapply em_list; eauto.
-    + destruct (fold_fthen_out _ _ _ H) as [H1|[c [cur [A B]]]]; [left; exact H1|]. right.
-      destruct (fsub_children tbl p t l E c A) as [c0 [C ->]]. eapply em_list; eauto.
+    destruct (fold_fthen_out _ _ _ H) as [H1|[c [cur [A B]]]]; [left; exact H1|]. right.
+    destruct (fsub_children tbl p t l E c A) as [c0 [C ->]]. eapply em_list; eauto.
   - destruct (feval_cond t fk cnd) as [[|]|]; try (left; exact H).
     (* the body, statement by statement *)
     assert (Hgo : forall l r0, In x (f_out ((fix go (l : list gstmt) (r : fres) : fres :=
@@ -185,21 +185,21 @@ Qed.
 Lemma emitted_paths_points tbl t s x :
   emitted tbl t s x ->
   (exists name pos, x = (pos, PDec (tid t) (tkind t) name) /\ In name (gstmt_points s)) \/
-  (exists p c cur, In p (gstmt_paths s) /\ child_at t p c /\ In x (f_out (ft_fn (fbuild tbl c) cur))).
+  (exists p b c cur, In (p, b) (gstmt_paths s) /\ child_at b t p c /\ In x (f_out (ft_fn (fbuild tbl c) cur))).
 Proof.
   induction 1.
   - left. exists name, pos. split; [reflexivity|left; reflexivity].
-  - right. exists p, c, cur. split; [left; reflexivity|auto].
-  - right. exists p, c, cur. split; [left; reflexivity|auto].
+  - right. exists p, false, c, cur. split; [left; reflexivity|auto].
+  - right. exists p, true, c, cur. split; [left; reflexivity|auto].
   - assert (Hsub1 : forall n, In n (gstmt_points s) -> In n (gstmt_points (GIf cnd body))).
     { intros n Hn. cbn [gstmt_points]. clear -H Hn. induction body as [|y l IHl]; [destruct H|].
       destruct H as [->|H]; apply in_or_app; [left; exact Hn|right; apply IHl; exact H]. }
-    assert (Hsub2 : forall p, In p (gstmt_paths s) -> In p (gstmt_paths (GIf cnd body))).
+    assert (Hsub2 : forall p : path * bool, In p (gstmt_paths s) -> In p (gstmt_paths (GIf cnd body))).
     { intros p Hp. cbn [gstmt_paths]. clear -H Hp. induction body as [|y l IHl]; [destruct H|].
       destruct H as [->|H]; apply in_or_app; [left; exact Hp|right; apply IHl; exact H]. }
-    destruct IHemitted as [[name [pos [A B]]]|[p [c [cur [A [B C]]]]]].
+    destruct IHemitted as [[name [pos [A B]]]|[p [b [c [cur [A [B C]]]]]]].
     + left. exists name, pos. split; [exact A|apply Hsub1; exact B].
-    + right. exists p, c, cur. split; [apply Hsub2; exact A|auto].
+    + right. exists p, b, c, cur. split; [apply Hsub2; exact A|auto].
 Qed.
 
 (* a child is smaller than its parent *)
@@ -227,13 +227,13 @@ Qed.
 Lemma in_list_size (l : list tree) c : In c l -> (size c <= fold_right (fun c a => size c + a) 0 l)%nat.
 Proof. induction l as [|y l IH]; [intros []|]. intros [->|H]; cbn; [lia|specialize (IH H); lia]. Qed.
 
-Lemma child_at_size t p c : child_at t p c -> (size c < size t)%nat.
+Lemma child_at_size bb t p c : child_at bb t p c -> (size c < size t)%nat.
 Proof.
   induction 1.
-  - destruct t as [id k vals kids decs b a]. cbn [tkids] in H. rewrite size_node. pose proof (kids_size_lookup _ _ _ H). cbn [kid_size] in H0. lia.
-  - destruct t as [id k vals kids decs b a]. cbn [tkids] in H. rewrite size_node. pose proof (kids_size_lookup _ _ _ H). cbn [kid_size] in H1.
+  - destruct t as [id k vals kids decs sb sa]. cbn [tkids] in H. rewrite size_node. pose proof (kids_size_lookup _ _ _ H) as Hk. cbn [kid_size] in Hk. lia.
+  - destruct t as [id k vals kids decs sb sa]. cbn [tkids] in H. rewrite size_node. pose proof (kids_size_lookup _ _ _ H) as Hk. cbn [kid_size] in Hk.
     pose proof (in_list_size _ _ H0). lia.
-  - destruct t as [id k vals kids decs b a]. cbn [tkids] in H. rewrite size_node. pose proof (kids_size_lookup _ _ _ H). cbn [kid_size] in H1. lia.
+  - destruct t as [id k vals kids decs sb sa]. cbn [tkids] in H. rewrite size_node. pose proof (kids_size_lookup _ _ _ H) as Hk. cbn [kid_size] in Hk. lia.
 Qed.
 
 (* The statement for one node, given it for every proper descendant. *)
@@ -247,12 +247,12 @@ Proof.
   intros Hsub cur pos nid k name H.
   assert (Hpd : is_pdec (pos, PDec nid k name)) by (exists nid, k, name; reflexivity).
   destruct (fnode_out tbl t cur _ Hpd H) as [stmts [s [E [Hs He]]]].
-  destruct (emitted_paths_points _ _ _ _ He) as [[n0 [p0 [A B]]]|[p [c [cur' [A [B C]]]]]].
+  destruct (emitted_paths_points _ _ _ _ He) as [[n0 [p0 [A B]]]|[p [b [c [cur' [A [B C]]]]]]].
   - inversion A; subst. exists t. split; [apply r_refl|]. split; [reflexivity|]. split; [reflexivity|].
     unfold frag_points. rewrite E. apply in_flat_map. exists s. auto.
   - (* from a child: the child is a proper descendant *)
-    assert (Hne : c <> t) by (intros ->; pose proof (child_at_size _ _ _ B); lia).
-    destruct (Hsub c (child_at_desc _ _ _ B) Hne cur' pos nid k name C) as [t' [R [I1 [I2 I3]]]].
+    assert (Hne : c <> t) by (intros ->; pose proof (child_at_size _ _ _ _ B); lia).
+    destruct (Hsub c (child_at_desc _ _ _ _ B) Hne cur' pos nid k name C) as [t' [R [I1 [I2 I3]]]].
     exists t'. split; [|auto]. eapply r_step; [|exact B|exact R].
     unfold frag_paths. rewrite E. apply in_flat_map. exists s. auto.
 Qed.
@@ -260,8 +260,8 @@ Qed.
 Lemma desc_size t c : desc t c -> c = t \/ (size c < size t)%nat.
 Proof.
   induction 1 as [t|t f c t' Hl Hd IH|t f l c t' Hl Hin Hd IH]; [left; reflexivity| |].
-  - right. assert (size c < size t)%nat by (apply (child_at_size t [f] c); apply ca_one; exact Hl). destruct IH as [->|IH]; lia.
-  - right. assert (size c < size t)%nat by (apply (child_at_size t [f] c); eapply ca_many; eauto). destruct IH as [->|IH]; lia.
+  - right. assert (size c < size t)%nat by (apply (child_at_size false t [f] c); apply ca_one; exact Hl). destruct IH as [->|IH]; lia.
+  - right. assert (size c < size t)%nat by (apply (child_at_size true t [f] c); eapply ca_many; eauto). destruct IH as [->|IH]; lia.
 Qed.
 
 (* Every decoration fragment emitted for a tree belongs to a node reachable through the fragment
